@@ -193,9 +193,93 @@ impl Space {
     }
 }
 
+// ---- chains: (a op1 b) op2 c and a op1 (b op2 c): intermediate results feed the next operator ----
+
+fn chain_grid() -> Vec<V> {
+    vec![
+        V::Int(0),
+        V::Int(1),
+        V::Int(-1),
+        V::Int(i64::MAX),
+        V::Int(i64::MIN),
+        V::UInt(1),
+        V::UInt(1 << 63),
+        V::UInt(u64::MAX),
+        V::Dbl(1.5),
+        V::Dbl(f64::NAN),
+        V::Dbl(9007199254740993.0),
+        V::Bool(true),
+    ]
+}
+
+fn chain_size() -> u64 {
+    let n = chain_grid().len() as u64;
+    n * n * n * 25 * 2
+}
+
+fn run_chain(idx: u64, acc: &mut Acc) {
+    let g = chain_grid();
+    let n = g.len() as u64;
+    let d = unrank(idx, &[n, n, n, 5, 5, 2]);
+    let (a, b, c) = (&g[d[0] as usize], &g[d[1] as usize], &g[d[2] as usize]);
+    let (o1, o2) = (Arith::ALL[d[3] as usize], Arith::ALL[d[4] as usize]);
+    let left = d[5] == 0;
+    // reference: the inner operation first; its failure fails the whole expression
+    let step = |op: Arith, x: &Exp, y: &Exp| -> Exp {
+        match (x, y) {
+            (Exp::Unspec, _) | (_, Exp::Unspec) => Exp::Unspec,
+            (Exp::Fail, _) | (_, Exp::Fail) => Exp::Fail,
+            (Exp::Val(p), Exp::Val(q)) => refmodel::arith(op, p, q),
+        }
+    };
+    let (ea, eb, ec) = (Exp::Val(a.clone()), Exp::Val(b.clone()), Exp::Val(c.clone()));
+    let exp = if left { step(o2, &step(o1, &ea, &eb), &ec) } else { step(o1, &ea, &step(o2, &eb, &ec)) };
+    let mut first: Option<Outcome> = None;
+    for mask in 0u32..8 {
+        let mut binds: Vec<(&str, V)> = Vec::new();
+        let mut txt = Vec::new();
+        for (i, (v, name)) in [(a, "a"), (b, "b"), (c, "c")].into_iter().enumerate() {
+            if mask & (1 << i) != 0 {
+                txt.push(v.lit().unwrap());
+            } else {
+                binds.push((name, v.clone()));
+                txt.push(name.to_string());
+            }
+        }
+        let src = if left {
+            format!("({} {} {}) {} {}", txt[0], o1.sym(), txt[1], o2.sym(), txt[2])
+        } else {
+            format!("{} {} ({} {} {})", txt[0], o1.sym(), txt[1], o2.sym(), txt[2])
+        };
+        let got = real::eval(&src, &binds);
+        acc.eval();
+        acc.class(&got.class());
+        let case = || json!({"src": src, "a": a.show(), "b": b.show(), "c": c.show()});
+        let site = format!("chain {} then {} on {}x{}x{}", if left { o1.sym() } else { o2.sym() }, if left { o2.sym() } else { o1.sym() }, a.type_name(), b.type_name(), c.type_name());
+        if let Some(kind) = judge(&exp, &got) {
+            acc.violation(&format!("{} {}", site, kind), case(), exp.show(), got.show());
+        }
+        match &first {
+            None => first = Some(got),
+            Some(f) => {
+                if !f.agrees_class(&got) {
+                    acc.violation(&format!("{} literal-vs-bound-differ", site), case(), f.show(), got.show());
+                }
+            }
+        }
+    }
+    if !matches!(exp, Exp::Unspec) {
+        acc.nontrivial(&("chain", idx));
+    }
+    if acc.wants_sample() {
+        acc.sample(json!({"a": a.show(), "b": b.show(), "c": c.show(), "ops": [o1.sym(), o2.sym()], "left_grouping": left, "expected": exp.show()}));
+    }
+}
+
 pub fn replay_families(t: Tier) -> Vec<Family<'static>> {
     let sp: &'static Space = Box::leak(Box::new(Space::new(t)));
     vec![
+        Family::new("chains", chain_size(), run_chain),
         Family::new("pairs", sp.pairs_size(), move |i, a| sp.run_pair(i, a)),
         Family::new("neg", sp.grid.len() as u64, move |i, a| sp.run_neg(i, a)),
     ]
@@ -211,10 +295,13 @@ fn dump_hashes(sp: &Space, path: &str) {
 
 pub fn run(t: Tier, hash_out: Option<String>) -> i32 {
     let mut rep = Report::new(ID, t, "exploration");
-    rep.rule = "all ordered pairs of the boundary grid (ints, uints, doubles incl. NaN/inf/subnormals, one value of every other type) x {+ - * / %} x 4 literal/bound forms, plus unary minus on every grid value in both forms; each case compiled and executed through the public API and compared with exact i128 / IEEE reference arithmetic; a case is non-trivial when the property fixes its outcome (value or error), distinct by (operands, operator, form)".to_string();
+    rep.rule = "all ordered pairs of the boundary grid (ints, uints, doubles incl. NaN/inf/subnormals, one value of every other type) x {+ - * / %} x 4 literal/bound forms, plus unary minus on every grid value in both forms; chains: (a op b) op c and a op (b op c) over all triples of a 12-value grid x all 25 operator pairs x 8 literal/bound forms (an intermediate result - widened, overflowed or failed - feeds the next operator); each case compiled and executed through the public API and compared with exact i128 / IEEE reference arithmetic; a case is non-trivial when the property fixes its outcome (value or error), distinct by (operands, operator, form)".to_string();
     let sp = Space::new(t);
     rep.run_family(Family::new("pairs", sp.pairs_size(), |i, a| sp.run_pair(i, a)));
     rep.run_family(Family::new("neg", sp.grid.len() as u64, |i, a| sp.run_neg(i, a)));
+    if hash_out.is_none() {
+        rep.run_family(Family::new("chains", chain_size(), run_chain));
+    }
     rep.set("grid_size", json!(sp.grid.len()));
     if let Some(p) = hash_out {
         // peer mode: only emit per-case outcome hashes for the profile comparison
